@@ -178,6 +178,13 @@ def canon_sub(base, idx):
                 return v
     if base[0] == "cols" and idx[0] == "tuple" and len(idx[1]) == 2 and idx[1][0] == FULL:
         return canon_col(base, idx[1][1])
+    # [f(d) for d in range(n)][k]  ->  f(k)
+    if (base[0] == "comp" and base[1] == "list" and base[5] == () and base[4][0] == "call"
+            and base[4][1] == G("range") and not is_slice(idx) and idx[0] != "tuple"):
+        rargs = base[4][2]
+        if len(rargs) == 1 or (len(rargs) == 2 and rargs[0] == ("const", 0)):
+            var = ("idx", base[3], "range", rargs)
+            return subst(base[2], {var: idx})
     return ("sub", base, idx)
 
 
